@@ -8,7 +8,7 @@
    from goroutine start order are not compared: effect lists, record lists and views are
    compared as multisets. *)
 From Coq Require Import String List NArith ZArith Bool.
-From MevVerif Require Import lib.Bytes gen.Generated model.Topology.
+From MevVerif Require Import lib.Bytes gen.Generated model.Topology model.Discovery.
 Import ListNotations.
 Open Scope N_scope.
 
@@ -32,7 +32,17 @@ Inductive action :=
 | ARelease (c : N)                                                              (* let call c run to its next park / return *)
 | AOther (e : event).                                                           (* atomic call made by the driver itself *)
 
-Record case := mkCase {
+(* c_mode 3: the discovery machine of model/Discovery.v -- the real Discovery over a fake P2P service
+   whose Connect calls park and a topology whose IsConnected answers park, so that the driver decides
+   when each handler looks at its next entry and in which order the dials complete.  d_acts is the
+   schedule, d_effs what was seen during each action (IsConnected answers per handler, Connect calls,
+   worker AddPeers calls, handler returns), d_peak the largest number of Connect calls that were
+   running at the same time, d_stuck whether an expected reaction did not come within the watchdog
+   limit (the run is abandoned there); obs is the single final observation of the views. *)
+Record disc_obs := mkDisc { d_acts : list gaction; d_effs : list (list deffect); d_peak : N; d_stuck : bool }.
+Definition no_disc : disc_obs := mkDisc [] [] 0 false.
+
+Record case := mkCaseD {
   id : N;
   c_mode : N;
   c_roles : list Z;          (* int(p2p.PeerTypeBootnode), int(PeerTypeProvider), int(PeerTypeBidder) as compiled *)
@@ -40,7 +50,9 @@ Record case := mkCase {
   evs : list event;
   obs : list obs_ev;
   c_acts : list action;
-  c_calls : list (N * bool * list effect) }.
+  c_calls : list (N * bool * list effect);
+  c_disc : disc_obs }.
+Notation mkCase i m r p e o a c := (mkCaseD i m r p e o a c no_disc).
 
 Definition view_roles : list Z := [ROLE_BOOTNODE; ROLE_PROVIDER; ROLE_BIDDER; (-1)%Z].
 
@@ -139,11 +151,55 @@ Definition overlap_agrees (c : case) : bool :=
   list_eqb call_eqb (map (model_call steps) (started_calls (c_acts c))) (c_calls c)
   && list_eqb obs_eqb [observe (probes c) (base (srun steps)) []] (obs c).
 
+(* --- mode 3: the discovery machine run on the driver's schedule --------------------------------------- *)
+Definition pool_width : N := Z.to_N c15_check_workers.
+Definition dial_result_eqb (a b : dial_result) : bool :=
+  match a, b with
+  | DialOk p, DialOk q => peer_eqb p q
+  | DialErr RUndecodable, DialErr RUndecodable | DialErr RSelf, DialErr RSelf
+  | DialErr RBlocked, DialErr RBlocked | DialErr RUnreachable, DialErr RUnreachable => true
+  | _, _ => false
+  end.
+Definition deffect_eqb (a b : deffect) : bool :=
+  match a, b with
+  | XCheck h k, XCheck h' k' => (h =? h') && Bool.eqb k k'
+  | XDial u, XDial v => bytes_eqb u v
+  | XAdd p, XAdd q => peer_eqb p q
+  | XReturn h c, XReturn h' c' => (h =? h') && (c =? c')
+  | XSkip h x _, XSkip h' y _ => (h =? h') && wire_eqb x y
+  | _, _ => false
+  end.
+(* the driver sees IsConnected answers, Connect calls, AddPeers calls and handler returns; a skip is
+   not an event of its own *)
+Definition seen (e : deffect) : bool := match e with XSkip _ _ _ => false | _ => true end.
+(* per action: the effects of the action's events, the state after it and the number of running dials *)
+Fixpoint grun (cap : N) (s : dstate) (l : list gaction) : list (list deffect) * dstate * N :=
+  match l with
+  | [] => ([], s, N.of_nat (length (d_flying s)))
+  | a :: r =>
+      match drun_from cap s (action_events cap s a) with
+      | Ok (s1, effs) =>
+          match grun cap s1 r with
+          | (rest, s2, pk) => (filter seen (concat effs) :: rest, s2, N.max (N.of_nat (length (d_flying s))) pk)
+          end
+      | _ => ([], s, 0)
+      end
+  end.
+Definition disc_agrees (c : case) : bool :=
+  match grun pool_width dinit (d_acts (c_disc c)) with
+  | (effs, s, pk) =>
+      negb (d_stuck (c_disc c))
+      && list_eqb (ms_eqb deffect_eqb) effs (d_effs (c_disc c))
+      && (pk =? d_peak (c_disc c))
+      && list_eqb obs_eqb [observe (probes c) (d_topo s) []] (obs c)
+  end.
+
 Definition case_agrees (c : case) : bool :=
   list_eqb Z.eqb (c_roles c) [ROLE_BOOTNODE; ROLE_PROVIDER; ROLE_BIDDER]
   && within_pool init (evs c)
   && (if c_mode c =? 0 then list_eqb obs_eqb (run_obs (probes c) init (evs c)) (obs c)
       else if c_mode c =? 1 then list_eqb obs_eqb [final_obs (probes c) (evs c)] (obs c)
+      else if c_mode c =? 3 then disc_agrees c
       else overlap_agrees c).
 
 Definition mismatches (cs : list case) : list N :=
@@ -377,9 +433,103 @@ Definition overlap_clauses (c : case) : list string :=
      | _ => ["view:hang"%string]
      end.
 
+(* --- mode 3: the gossip property judged from the schedule and the observation alone -------------------
+   Bookkeeping: per handler the entries it has not looked at yet (from the lists of the schedule,
+   consumed by the IsConnected answers seen), the entries whose answer was "unknown" and that have
+   not been dialled yet (a Connect call must take one of them; a handler that returns with its context's error drops
+   what it had left), the entries that were skipped as known, the Connect calls running, the topology sets (from the schedule's topology events and the
+   AddPeers calls seen).
+     gossip:pool            more Connect calls were running at once than the pool is wide
+     gossip:dialled-known   a Connect call for an entry that was answered "known" (or an answer "unknown"
+                            for an address the topology holds at that moment)
+     gossip:unproven        a Connect call nobody asked for; an AddPeers that is not the peer returned
+                            by a Connect call running at that moment
+     view:hang              an expected reaction did not come / a handler returned an unexpected code *)
+Record gst := mkG { g_rem : list (N * list wire_record); g_due : list wire_record; g_known : list wire_record;
+                    g_fly : list bytes; g_abs : abs }.
+Fixpoint g_find (h : N) (l : list (N * list wire_record)) : list wire_record :=
+  match l with [] => [] | (d, r) :: t => if d =? h then r else g_find h t end.
+Fixpoint g_set (h : N) (r : list wire_record) (l : list (N * list wire_record)) : list (N * list wire_record) :=
+  match l with [] => [(h, r)] | (d, r0) :: t => if d =? h then (d, r) :: t else (d, r0) :: g_set h r t end.
+Fixpoint rm_due (u : bytes) (l : list wire_record) : option (list wire_record) :=
+  match l with
+  | [] => None
+  | x :: r => if bytes_eqb (snd x) u then Some r
+              else match rm_due u r with Some r' => Some (x :: r') | None => None end
+  end.
+Definition g_effect (a : gaction) (G : gst) (e : deffect) : gst * list string :=
+  match e with
+  | XCheck h k =>
+      match g_find h (g_rem G) with
+      | x :: rest =>
+          let truth := abs_connected (addr_of_bytes (fst x)) (g_abs G) in
+          (mkG (g_set h rest (g_rem G)) (if k then g_due G else g_due G ++ [x])
+               (if k then x :: g_known G else g_known G) (g_fly G) (g_abs G),
+           flag (negb k && truth) "gossip:dialled-known" ++ flag (k && negb truth) "view")
+      | [] => (G, ["view:hang"%string])
+      end
+  | XDial u =>
+      match rm_due u (g_due G) with
+      | Some due' => (mkG (g_rem G) due' (g_known G) (g_fly G ++ [u]) (g_abs G), [])
+      | None => (mkG (g_rem G) (g_due G) (g_known G) (g_fly G ++ [u]) (g_abs G),
+                 if existsb (fun x => bytes_eqb (snd x) u) (g_known G) then ["gossip:dialled-known"%string]
+                 else ["gossip:unproven"%string])
+      end
+  | XAdd p =>
+      (mkG (g_rem G) (g_due G) (g_known G) (g_fly G) (abs_add p (g_abs G)),
+       match a with
+       | GDone u (DialOk q) => flag (negb (peer_eqb p q && existsb (bytes_eqb u) (g_fly G))) "gossip:unproven"
+       | _ => ["gossip:unproven"%string]
+       end)
+  | XReturn h code =>
+      ((if code =? 2 then mkG (g_set h [] (g_rem G)) (g_due G) (g_known G) (g_fly G) (g_abs G) else G),
+       flag (negb ((code =? 0) && is_nil (g_find h (g_rem G))
+                      || (code =? 1) && match a with GList h' false _ => h' =? h | _ => false end
+                      || (code =? 2))) "view:hang")
+  | XSkip _ _ _ => (G, [])
+  end.
+Definition g_begin (a : gaction) (G : gst) : gst :=
+  match a with
+  | GList h true l => mkG (g_set h l (g_rem G)) (g_due G) (g_known G) (g_fly G) (g_abs G)
+  | GTopo e => if topo_event e then mkG (g_rem G) (g_due G) (g_known G) (g_fly G) (abs_step (g_abs G) e []) else G
+  | _ => G
+  end.
+Definition g_end (a : gaction) (G : gst) : gst :=
+  match a with
+  | GDone u _ => mkG (g_rem G) (g_due G) (g_known G) (remove1 u (g_fly G)) (g_abs G)
+  | _ => G
+  end.
+(* the IsConnected answers of an action come first, then the calls they lead to *)
+Definition check_first (l : list deffect) : list deffect :=
+  filter (fun e => match e with XCheck _ _ => true | _ => false end) l
+  ++ filter (fun e => match e with XCheck _ _ => false | _ => true end) l.
+Fixpoint g_effects (a : gaction) (G : gst) (l : list deffect) : gst * list string :=
+  match l with
+  | [] => (G, [])
+  | e :: r => let (G1, k1) := g_effect a G e in let (G2, k2) := g_effects a G1 r in (G2, k1 ++ k2)
+  end.
+Fixpoint g_run (G : gst) (acts : list gaction) (effs : list (list deffect)) : gst * list string :=
+  match acts, effs with
+  | a :: ar, l :: lr =>
+      let (G1, k1) := g_effects a (g_begin a G) (check_first l) in
+      let (G2, k2) := g_run (g_end a G1) ar lr in (G2, k1 ++ k2)
+  | _, _ => (G, [])
+  end.
+Definition disc_clauses (c : case) : list string :=
+  let D := c_disc c in
+  let (G, ks) := g_run (mkG [] [] [] [] abs_init) (d_acts D) (d_effs D) in
+  ks ++ flag (Z.to_N c15_check_workers <? d_peak D) "gossip:pool"
+  ++ flag (d_stuck D) "view:hang"
+  ++ (if d_stuck D then []
+      else match obs c with
+           | [o] => flag (negb (view_ok G.(g_abs) (probes c) o)) "view"
+           | _ => ["view:hang"%string]
+           end).
+
 Definition case_violations (c : case) : list string :=
   if c_mode c =? 0 then nodup string_dec (trace_clauses abs_init (probes c) (evs c) (obs c))
   else if c_mode c =? 1 then final_clauses (probes c) (evs c) (obs c)
+  else if c_mode c =? 3 then nodup string_dec (disc_clauses c)
   else nodup string_dec (overlap_clauses c).
 
 Definition violations (cs : list case) : list (N * string) :=
@@ -388,4 +538,6 @@ Definition violations (cs : list case) : list (N * string) :=
 (* a case exercises the property when the model announces, dials or adds at least once *)
 Definition nontrivial (cs : list case) : list N :=
   map id (filter (fun c => negb (is_nil (concat (trace (evs c))))
-                           || negb (is_nil (flat_map (fun x => snd x) (c_calls c)))) cs).
+                           || negb (is_nil (flat_map (fun x => snd x) (c_calls c)))
+                           || existsb (fun l => existsb (fun e => match e with XDial _ => true | _ => false end) l)
+                                      (d_effs (c_disc c))) cs).
